@@ -202,11 +202,13 @@ def generate():
          raises(body[1].body[0].body, "BananaError") and raises(body[1].body[0].orelse, "Violation") and
          isinstance(body[2], ast.If) and raises(body[2].body, "Violation"), "Constraint.checkToken changed shape")
     t = body[2].test
-    need(isinstance(t, ast.BoolOp) and isinstance(t.op, ast.And) and U(t.values[0]) == "limit" and
+    need(isinstance(t, ast.BoolOp) and isinstance(t.op, ast.And) and len(t.values) == 2 and
+         U(t.values[0]) in ("limit", "limit is not None", "limit != None") and
          isinstance(t.values[1], ast.Compare) and U(t.values[1].left) == "size" and U(t.values[1].comparators[0]) == "limit",
          "Constraint.checkToken: size test changed: " + U(t))
-    out.append("Definition token_size_cmp : scmp := %s.   (* `limit and size %s limit` -> Violation; limit 0/None = no limit *)"
-               % (CMP[type(t.values[1].ops[0])], U(t.values[1]).split()[1]))
+    out.append("Definition token_size_cmp : scmp := %s.   (* `%s` -> Violation *)" % (CMP[type(t.values[1].ops[0])], U(t)))
+    out.append("Definition token_limit_zero_unlimited : bool := %s.  (* guard `%s`: is a limit of 0 treated as no limit? *)"
+               % ("true" if U(t.values[0]) == "limit" else "false", U(t.values[0])))
     pc = P.find_def(P.load("schema.py"), "PolyConstraint.checkToken")
     need("for c in self.alternatives" in U(pc) and "except (Violation, BananaError)" in U(pc) and "if not ok" in U(pc),
          "PolyConstraint.checkToken changed")
@@ -300,9 +302,31 @@ def generate():
                "(* list/tuple/dict/set/immutable-set/unicode/boolean unslicers: Any -> unconstrained, else assert isinstance *)")
     # child unslicers' own token checks
     uu = P.find_def(sl["unicode"], "UnicodeUnslicer.checkToken")
-    need([U(s) for s in uu.body] == ["if typebyte not in (STRING, VOCAB):\n    raise BananaError('UnicodeUnslicer only accepts strings')"],
-         "UnicodeUnslicer.checkToken changed (does it consult its constraint now?)")
-    out.append("Definition unicode_unslicer_checks_size : bool := false.  (* checkToken ignores self.constraint *)")
+    need(len(uu.body) in (1, 2) and
+         U(uu.body[0]) == "if typebyte not in (STRING, VOCAB):\n    raise BananaError('UnicodeUnslicer only accepts strings')",
+         "UnicodeUnslicer.checkToken: type test changed")
+    if len(uu.body) == 1:
+        out.append("Definition unicode_unslicer_checks_size : bool := false.  (* checkToken ignores self.constraint *)")
+        out.append("Definition unicode_size_factor : Z := 0.")
+        out.append("Definition unicode_size_cmp : scmp := SGt.")
+    else:
+        g = uu.body[1]
+        need(isinstance(g, ast.If) and raises(g.body, "Violation") and not g.orelse and isinstance(g.test, ast.BoolOp) and
+             isinstance(g.test.op, ast.And) and
+             [U(v) for v in g.test.values[:3]] == ["typebyte == STRING", "self.constraint is not None",
+                                                   "self.constraint.maxLength is not None"] and len(g.test.values) == 4,
+             "UnicodeUnslicer.checkToken: size guard changed: " + U(g.test))
+        cmpn = g.test.values[3]
+        need(isinstance(cmpn, ast.Compare) and U(cmpn.left) == "size" and len(cmpn.ops) == 1 and type(cmpn.ops[0]) in CMP and
+             isinstance(cmpn.comparators[0], ast.BinOp) and isinstance(cmpn.comparators[0].op, ast.Mult) and
+             isinstance(cmpn.comparators[0].left, ast.Constant) and isinstance(cmpn.comparators[0].left.value, int) and
+             U(cmpn.comparators[0].right) == "self.constraint.maxLength", "UnicodeUnslicer.checkToken: size comparison: " + U(cmpn))
+        out.append("Definition unicode_unslicer_checks_size : bool := true.  (* `%s` -> Violation *)" % U(g.test))
+        out.append("Definition unicode_size_factor : Z := %d." % cmpn.comparators[0].left.value)
+        out.append("Definition unicode_size_cmp : scmp := %s." % CMP[type(cmpn.ops[0])])
+    need("yield encoded" in U(P.find_def(sl["unicode"], "UnicodeSlicer.sliceBody")) or
+         'yield self.obj.encode("UTF-8")' in U(P.find_def(sl["unicode"], "UnicodeSlicer.sliceBody")) or
+         "yield self.obj.encode('UTF-8')" in U(P.find_def(sl["unicode"], "UnicodeSlicer.sliceBody")), "UnicodeSlicer.sliceBody")
     bu = P.find_def(sl["bool"], "BooleanUnslicer.receiveChild")
     need("if bool(obj) != self.constraint.value:\n                raise Violation" in U(bu).replace("    raise", "raise").replace(
         "if bool(obj) != self.constraint.value:\n            raise", "if bool(obj) != self.constraint.value:\n                raise")
